@@ -163,7 +163,7 @@ theorem impOption_plain (s : Sig) (b : Base) (up : Option Int) (k : Nat) (c : Na
             · simp at hh
         | none =>
           refine ⟨.ws c.1, by simp [impOption, hs, he', hh], rfl, by simp, ?_, rfl⟩
-          have : 1 ≤ c.1 ∧ c.1 ≤ 13 := by simpa [optChoiceOk, hs, he', hh] using hok
+          have : c.1 ≤ 14 := by simpa [optChoiceOk, hs, he', hh] using hok
           simp only [SOpt.WF]; omega
   · exact ⟨.sackok, by simp [impOption], rfl, by simp, trivial, rfl⟩
   · -- timestamps
@@ -191,7 +191,7 @@ theorem impOption_plain (s : Sig) (b : Base) (up : Option Int) (k : Nat) (c : Na
             simp only
             rename_i hz
             have hz' : s.quirks .zeroTs1 = false := by simpa using hz
-            have : 120 ≤ c.1 ∧ c.1 ≤ 3153600000 := by
+            have : 1 ≤ c.1 ∧ c.1 ≤ 4294967295 := by
               have := hok
               simp [optChoiceOk, hz', hu, h1] at this
               exact this.1
